@@ -101,9 +101,14 @@ fn jump_target_bits(p: &str) -> String {
         t[27] = high;
         t[31] = 40;
     }
-    let low = ((t[30] as usize) << 8) | t[31] as usize;
-    let dest = if (35..4096).contains(&low) { low } else { 40 };
-    let exact = t[..30].iter().all(|b| *b == 0) && low == dest;
+    // keep the model's high bits (what the validator must not ignore), aim the low 32 bits at a real JUMPDEST
+    let dest = 40usize;
+    let high_nonzero = t[..28].iter().any(|b| *b != 0);
+    t[28] = 0;
+    t[29] = 0;
+    t[30] = 0;
+    t[31] = dest as u8;
+    let exact = !high_nonzero;
     let mut code = vec![0x7fu8];
     code.extend_from_slice(&t);
     code.push(0x56); // JUMP at 33
@@ -648,6 +653,61 @@ fn watchdog_sweep(p: &str) -> String {
         !bad.is_empty(), total1, total_n, interval, bad.join("; ").replace('"', "'"))
 }
 
+/// Concrete stack programs: PUSH1 1..5 then DUPn / SWAPn for every n that fits; the resulting stack must match a list model.
+fn stack_ops(_p: &str) -> String {
+    let mut bad = Vec::new();
+    for n in 1..=5u8 {
+        for (base, is_dup) in [(0x7fu8, true), (0x8fu8, false)] {
+            let mut code = Vec::new();
+            for v in 1..=6u8 {
+                code.extend_from_slice(&[0x60, v]);
+            }
+            code.push(base + n);
+            code.push(0x00);
+            let stream = InstructionStream::try_from(code.as_slice()).expect("disassembles");
+            let mut vm = VM::new(stream, Config::default(), LazyWatchdog.in_rc()).expect("vm");
+            let _ = vm.execute();
+            let st = &vm.stored_states()[0];
+            let mut model: Vec<i64> = (1..=6).collect();
+            if is_dup {
+                let x = model[model.len() - n as usize];
+                model.push(x);
+            } else {
+                let t = model.len() - 1;
+                model.swap(t, t - n as usize);
+            }
+            let depth = st.stack().depth();
+            let mut got = Vec::new();
+            for d in (0..depth as u32).rev() {
+                let v = st.stack().read(d).expect("frame");
+                got.push(match v.data() { RSVD::KnownData { value } => usize::from(*value) as i64, _ => -1 });
+            }
+            if got != model {
+                bad.push(format!("{}{}: {:?} expected {:?}", if is_dup { "DUP" } else { "SWAP" }, n, got, model));
+            }
+        }
+    }
+    format!("{{\"violates\": {}, \"problems\": \"{}\"}}", !bad.is_empty(), bad.join("; "))
+}
+
+/// MSTORE / SSTORE / MLOAD / SLOAD with distinguishable constants: the value must land under the right offset / key.
+fn mem_storage_wiring(_p: &str) -> String {
+    // PUSH1 0xaa PUSH1 0x20 MSTORE  PUSH1 0x20 MLOAD   PUSH1 0xbb PUSH1 0x07 SSTORE  PUSH1 0x07 SLOAD  STOP
+    let code = [0x60u8, 0xaa, 0x60, 0x20, 0x52, 0x60, 0x20, 0x51, 0x60, 0xbb, 0x60, 0x07, 0x55, 0x60, 0x07, 0x54, 0x00];
+    let stream = InstructionStream::try_from(code.as_slice()).expect("disassembles");
+    let mut vm = VM::new(stream, Config::default(), LazyWatchdog.in_rc()).expect("vm");
+    let _ = vm.execute();
+    let st = &vm.stored_states()[0];
+    let kw = |v: &RuntimeBoxedVal| match v.constant_fold().data() { RSVD::KnownData { value } => usize::from(*value) as i64, _ => -1 };
+    let top = kw(st.stack().read(0).expect("sload result"));
+    let second = kw(st.stack().read(1).expect("mload result"));
+    // SLOAD of a written key yields the SLoad{key, value} node or the value; accept either shape containing 0xbb
+    let top_s = format!("{}", st.stack().read(0).unwrap());
+    let second_s = format!("{}", st.stack().read(1).unwrap());
+    let ok = (top == 0xbb || top_s.contains("bb")) && (second == 0xaa || second_s.contains("aa"));
+    format!("{{\"violates\": {}, \"sload\": \"{}\", \"mload\": \"{}\"}}", !ok, top_s.replace('"', "'"), second_s.replace('"', "'"))
+}
+
 fn main() {
     let args: Vec<String> = std::env::args().collect();
     if args.len() < 3 {
@@ -661,6 +721,8 @@ fn main() {
         "fork_first_visit" => fork_first_visit(&p),
         "jump_target_bits" => jump_target_bits(&p),
         "halting_opcode" => halting_opcode(&p),
+        "stack_ops" => stack_ops(&p),
+        "mem_storage_wiring" => mem_storage_wiring(&p),
         "watchdog_sweep" => watchdog_sweep(&p),
         "unify_polls" => unify_polls(&p),
         "opcode_wiring" => opcode_wiring(&p),
